@@ -1,4 +1,5 @@
 import SecsModel.Proofs.Ctrl
+import SecsModel.Proofs.SMGen
 /-!
 # C11 — GEM control state follows the E30 control model for every operator/host history
 
@@ -24,6 +25,19 @@ table with that source, trigger and target; every row of the table (transitions 
 HOST OFF-LINE) is implemented by a shipped transition; the remaining shipped transitions (`start`, `initial_*`: E30 transitions
 1, 2, 7) start only in the pseudo states INIT/CONTROL/OFFLINE/ONLINE. -/
 theorem table_refines_E30 : genInSpec = true ∧ specInGen = true ∧ pseudoOnly = true := table_refines
+
+/-- the generated method bodies of `ControlStateMachine` (statement order included) that `Model.Gem.Ctrl.runMethod` interprets are
+well-formed: see `Proofs.SMGen.ctrl_methods_resolve`.  That a *rejected* `switch_online_local/remote` must not touch the remembered
+sub-state is part of `step_refines_E30` (a raised exception ⇒ the whole model state, `remote` included, is unchanged): swapping the
+two statements of either method re-generates `Gen.CtrlMethods` and breaks that obligation. -/
+theorem methods_wellformed :
+    (["start", "switch_online", "switch_offline", "switch_online_local", "switch_online_remote", "remote_offline", "remote_online",
+      "attempt_online_success", "attempt_online_fail_host_offline"].all fun m => CtrlMethods.methods.any fun r => r.1 == m) = true ∧
+    (CtrlMethods.methods.all fun r => r.2.all fun st => st.1 == "assign" || (st.1 == "perform" && (lookup ctrl st.2.1).isSome)) = true ∧
+    (["attempt_online_success", "attempt_online_fail_host_offline"].all fun m =>
+      CtrlMethods.methods.any fun r => r.1 == m && r.2 == [("perform", m, "")]) = true ∧
+    (CtrlSM.methods.all fun mt => CtrlMethods.methods.any fun r => r.1 == mt.1 && r.2.any fun st => st.1 == "perform" && st.2.1 == mt.2) = true :=
+  ctrl_methods_resolve
 
 /-- **Step refinement**: 4 initial configurations × 5 states × 2 remembered sub-states × every operator/host input (the
 attempt-online probe answered, unanswered, aborted, or not sent; also split into "probe outstanding" and "probe resolves").
